@@ -329,3 +329,470 @@ Proof.
   intros. destruct v; cbn [im2col_2d].
   now apply idx_2d_closed. now apply v2_2d_closed. now apply fast_2d_closed.
 Qed.
+
+(* ------------------------------------------------------------------ un-padding = reading the padded image backwards *)
+Lemma unpad_pos_real L p x : unpad_pos p (L + 2 * p) x = if is_real L p x then Some (x - p) else None.
+Proof.
+  unfold unpad_pos, is_real. replace (L + 2 * p - p) with (p + L) by ring. reflexivity.
+Qed.
+Lemma unpad_neg_real L p x : 0 <= p -> 0 <= x < L + 2 * p ->
+  unpad_neg p (L + 2 * p) x = if is_real L p x then Some (x - p) else None.
+Proof.
+  intros Hp Hx. unfold unpad_neg, is_real. replace (L + 2 * p - p) with (p + L) by ring.
+  destruct (Z.eqb_spec p 0) as [->|NE]; auto.
+  destruct (Z.leb_spec 0 x), (Z.ltb_spec x (0 + L)); try lia; cbn [andb]. f_equal. lia.
+Qed.
+
+Lemma unpad_c2i_lookup g n c hp wp : valid g -> 0 <= n < gN g -> 0 <= c < gC g -> 0 <= hp < Hp g -> 0 <= wp < Wp g ->
+  unpad_c2i g (n, c, hp, wp) = cell_opt (pad_lookup g (n, c, hp, wp)).
+Proof.
+  intros Hv Hn Hc Hh Hw. unfold unpad_c2i, unpad_with, pad_lookup. guard_true.
+  unfold Hp, Wp. rewrite !unpad_pos_real.
+  destruct (is_real (gH g) (pH g) hp), (is_real (gW g) (pW g) wp); reflexivity.
+Qed.
+Lemma unpad_pw_lookup g n c hp wp : valid g -> 0 <= n < gN g -> 0 <= c < gC g -> 0 <= hp < Hp g -> 0 <= wp < Wp g ->
+  unpad_pw g (n, c, hp, wp) = cell_opt (pad_lookup g (n, c, hp, wp)).
+Proof.
+  intros Hv Hn Hc Hh Hw. unfold unpad_pw, unpad_with, pad_lookup. guard_true.
+  unfold Hp, Wp in *. rewrite !unpad_neg_real by (dv Hv; lia).
+  destruct (is_real (gH g) (pH g) hp), (is_real (gW g) (pW g) wp); reflexivity.
+Qed.
+
+Lemma phi_pad_range g r l : valid g -> 0 <= r < nR g -> 0 <= l < nL g ->
+  0 <= ((r / kW g) mod kH g) * dH g + sH g * (l / lW g) < Hp g /\
+  0 <= (r mod kW g) * dW g + sW g * (l mod lW g) < Wp g.
+Proof.
+  intros Hv Hr Hl. pose proof (row_parts g r Hv Hr) as (Hc & Ha & Hb). pose proof (col_parts g l Hv Hl) as (Hi & Hj).
+  pose proof (hpos_range g _ _ Hv Hi Ha). pose proof (wpos_range' g _ _ Hv Hj Hb). lia.
+Qed.
+
+(* ------------------------------------------------------------------ the contribution lists as sums *)
+Definition P2 g := list_prod (zr (lH g)) (zr (lW g)).
+Definition P4 g := list_prod (list_prod (list_prod (zr (gN g)) (zr (gC g))) (zr (kH g))) (zr (kW g)).
+
+Section ContribSums.
+Context {A : Type} `{ScalarLaws A}.
+
+Lemma isum_zr_R g (f : Z -> A) : valid g ->
+  isum (zr (nR g)) f =
+  isum (zr (gC g)) (fun c => isum (zr (kH g)) (fun a => isum (zr (kW g)) (fun b => f ((c * kH g + a) * kW g + b)))).
+Proof.
+  intros Hv. dv Hv. replace (nR g) with ((gC g * kH g) * kW g) by (unfold nR; ring).
+  rewrite isum_zr_mul by nia. rewrite isum_zr_mul by lia. reflexivity.
+Qed.
+Lemma isum_zr_L g (f : Z -> A) : valid g ->
+  isum (zr (nL g)) f = isum (zr (lH g)) (fun i => isum (zr (lW g)) (fun j => f (i * lW g + j))).
+Proof. intros Hv. dv Hv. unfold nL. apply isum_zr_mul; lia. Qed.
+
+(* sums over the result indices, regrouped by (window) x (batch, channel, kernel offset) *)
+Lemma Junf_sum g (G : Z * Z * Z -> A) : valid g ->
+  isum (Junf g) G =
+  isum (P2 g) (fun ij => isum (P4 g) (fun ncab =>
+     let '(i, j) := ij in let '(n, c, a, b) := ncab in G (n, (c * kH g + a) * kW g + b, i * lW g + j))).
+Proof.
+  intros Hv. rewrite isum_exchange. unfold Junf, P4, P2. rewrite !isum_list_prod.
+  apply isum_ext; intros n _. rewrite isum_zr_R by auto.
+  apply isum_ext; intros c _. apply isum_ext; intros a _. apply isum_ext; intros b _.
+  rewrite isum_zr_L by auto. rewrite isum_list_prod. reflexivity.
+Qed.
+
+(* 2-D layout: column q = l*N + n *)
+Lemma J2d_sum g (G : Z * Z -> A) : valid g ->
+  isum (J2d g) G = isum (Junf g) (fun j => let '(n, r, l) := j in G (r, l * gN g + n)).
+Proof.
+  intros Hv. unfold J2d, Junf. rewrite !isum_list_prod. rewrite (isum_exchange (zr (gN g)) (zr (nR g))).
+  apply isum_ext; intros r _. rewrite (isum_exchange (zr (gN g)) (zr (nL g))).
+  replace (gN g * nL g) with (nL g * gN g) by ring.
+  pose proof (nL_pos g Hv). dv Hv. rewrite isum_zr_mul by lia. reflexivity.
+Qed.
+
+(* col2im: np.add.at over the broadcast index arrays *)
+Lemma idx_sum g (F : Z * Z * Z -> option pos -> A) : valid g ->
+  isum (idx_contribs_unf g) (fun jt => F (fst jt) (snd jt)) = isum (Junf g) (fun j => F j (phi_opt g j)).
+Proof.
+  intros Hv. unfold idx_contribs_unf, Junf.
+  rewrite idx_rows_len, idx_cols_len, idx_rows_eq, idx_cols_eq, !combine_map_r by auto.
+  rewrite isum_flat_map, !isum_list_prod.
+  apply isum_ext; intros n Hn. apply in_zr in Hn.
+  rewrite isum_flat_map, isum_map. apply isum_ext; intros r Hr. apply in_zr in Hr.
+  unfold rowf. cbv beta iota zeta. rewrite !isum_map.
+  apply isum_ext; intros l Hl. apply in_zr in Hl.
+  unfold colf. cbv beta iota zeta. cbn [fst snd].
+  destruct (phi_pad_range g r l Hv Hr Hl) as (Bh & Bw). pose proof (row_parts g r Hv Hr) as (Hc & _ & _).
+  rewrite unpad_c2i_lookup by auto. reflexivity.
+Qed.
+
+Lemma v2_src_closed g i j n c a b : valid g ->
+  0 <= i < lH g -> 0 <= j < lW g -> 0 <= c < gC g -> 0 <= a < kH g -> 0 <= b < kW g ->
+  unravel3 (nR g) (nL g) (ravel4 (gC g) (nK g) (nL g) n c (ravel2 (kW g) a b) (i * lW g + j)) =
+  (n, (c * kH g + a) * kW g + b, i * lW g + j).
+Proof.
+  intros Hv Hi Hj Hc Ha Hb.
+  replace (ravel4 (gC g) (nK g) (nL g) n c (ravel2 (kW g) a b) (i * lW g + j))
+    with (ravel3 (nR g) (nL g) n ((c * kH g + a) * kW g + b) (i * lW g + j))
+    by (unfold ravel4, ravel3, ravel2, nR, nK; ring).
+  apply unravel3_ravel.
+  - pose proof (mul_lt_bound c (kH g) a (gC g) Hc Ha) as B1.
+    pose proof (mul_lt_bound _ (kW g) b _ B1 Hb) as B2. unfold nR. lia.
+  - pose proof (mul_lt_bound i (lW g) j (lH g) Hi Hj). unfold nL. lia.
+Qed.
+
+(* col2im_v2: the loop over windows, slices and reshapes *)
+Lemma v2_sum g (F : Z * Z * Z -> option pos -> A) : valid g ->
+  isum (v2_contribs_unf g) (fun jt => F (fst jt) (snd jt)) =
+  isum (P2 g) (fun ij => isum (P4 g) (fun ncab =>
+     let '(i, j) := ij in let '(n, c, a, b) := ncab in
+     F (n, (c * kH g + a) * kW g + b, i * lW g + j) (phi_win_opt g (i, j, n, c, a, b)))).
+Proof.
+  intros Hv. unfold v2_contribs_unf, loop_pairs, P2. rewrite isum_flat_map.
+  apply isum_ext; intros [i j] Hij. apply in_prod_iff in Hij. destruct Hij as (Hi & Hj).
+  apply in_zr in Hi. apply in_zr in Hj.
+  rewrite v2_hs_closed, v2_ws_closed by auto.
+  rewrite !zlen_map, !zlen_zr by (dv Hv; lia). rewrite Z.eqb_refl. rewrite !combine_map_r.
+  unfold P4. rewrite !isum_list_prod. rewrite isum_flat_map.
+  apply isum_ext; intros n Hn. apply in_zr in Hn. rewrite isum_flat_map.
+  apply isum_ext; intros c Hc. apply in_zr in Hc. rewrite isum_flat_map, isum_map.
+  apply isum_ext; intros a Ha. apply in_zr in Ha. cbv beta iota zeta. rewrite !isum_map.
+  apply isum_ext; intros b Hb. apply in_zr in Hb. cbv beta iota zeta.
+  rewrite v2_src_closed by auto. cbn [fst snd].
+  pose proof (hpos_range g i a Hv Hi Ha). pose proof (wpos_range' g j b Hv Hj Hb).
+  rewrite unpad_c2i_lookup by auto. reflexivity.
+Qed.
+
+(* place_windows *)
+Lemma pw_sum g (F : Z * Z * Z * Z * Z * Z -> option pos -> A) : valid g ->
+  isum (pw_contribs g) (fun wt => F (fst wt) (snd wt)) =
+  isum (P2 g) (fun ij => isum (P4 g) (fun ncab =>
+     let '(i, j) := ij in let '(n, c, a, b) := ncab in
+     F (i, j, n, c, a, b) (phi_win_opt g (i, j, n, c, a, b)))).
+Proof.
+  intros Hv. unfold pw_contribs, P2. rewrite isum_flat_map.
+  apply isum_ext; intros [i j] Hij. apply in_prod_iff in Hij. destruct Hij as (Hi & Hj).
+  apply in_zr in Hi. apply in_zr in Hj.
+  pose proof (fitsH g i Hv Hi) as FH. pose proof (fitsW g j Hv Hj) as FW.
+  assert (EH : slice_idx (i * sH g) (i * sH g + kH g * dH g) (dH g) (Hp g) = map (fun a => i * sH g + a * dH g) (zr (kH g))).
+  { dv Hv. apply slice_idx_fit; auto. lia. nia. }
+  assert (EW : slice_idx (j * sW g) (j * sW g + kW g * dW g) (dW g) (Wp g) = map (fun b => j * sW g + b * dW g) (zr (kW g))).
+  { dv Hv. apply slice_idx_fit; auto. lia. nia. }
+  rewrite EH, EW. rewrite !zlen_map, !zlen_zr by (dv Hv; lia). rewrite !Z.eqb_refl. cbn [andb]. rewrite !combine_map_r.
+  unfold P4. rewrite !isum_list_prod. rewrite isum_flat_map.
+  apply isum_ext; intros n Hn. apply in_zr in Hn. rewrite isum_flat_map.
+  apply isum_ext; intros c Hc. apply in_zr in Hc. rewrite isum_flat_map, isum_map.
+  apply isum_ext; intros a Ha. apply in_zr in Ha. cbv beta iota zeta. rewrite !isum_map.
+  apply isum_ext; intros b Hb. apply in_zr in Hb. cbv beta iota zeta. cbn [fst snd].
+  pose proof (hpos_range g i a Hv Hi Ha). pose proof (wpos_range' g j b Hv Hj Hb).
+  rewrite unpad_pw_lookup by auto. reflexivity.
+Qed.
+
+Lemma fast_src_unf_closed g i j n c a b : valid g ->
+  0 <= i < lH g -> 0 <= j < lW g -> 0 <= n < gN g -> 0 <= c < gC g -> 0 <= a < kH g -> 0 <= b < kW g ->
+  fast_src_unf g (i, j, n, c, a, b) = (n, (c * kH g + a) * kW g + b, i * lW g + j).
+Proof.
+  intros Hv Hi Hj Hn Hc Ha Hb. unfold fast_src_unf.
+  replace (ravel6 (lW g) (gN g) (gC g) (kH g) (kW g) i j n c a b)
+    with (ravel3 (gN g) (nR g) (i * lW g + j) n ((c * kH g + a) * kW g + b))
+    by (unfold ravel6, ravel3, nR; ring).
+  rewrite unravel3_ravel; auto.
+  pose proof (mul_lt_bound c (kH g) a (gC g) Hc Ha) as B1.
+  pose proof (mul_lt_bound _ (kW g) b _ B1 Hb) as B2. unfold nR. lia.
+Qed.
+Lemma fast_src_2d_closed g i j n c a b : valid g ->
+  0 <= i < lH g -> 0 <= j < lW g -> 0 <= n < gN g -> 0 <= c < gC g -> 0 <= a < kH g -> 0 <= b < kW g ->
+  fast_src_2d g (i, j, n, c, a, b) = ((c * kH g + a) * kW g + b, (i * lW g + j) * gN g + n).
+Proof.
+  intros Hv Hi Hj Hn Hc Ha Hb. unfold fast_src_2d.
+  replace (ravel6 (lW g) (gN g) (gC g) (kH g) (kW g) i j n c a b)
+    with (ravel2 (nR g) ((i * lW g + j) * gN g + n) ((c * kH g + a) * kW g + b))
+    by (unfold ravel6, ravel2, nR; ring).
+  rewrite unravel2_ravel; auto.
+  pose proof (mul_lt_bound c (kH g) a (gC g) Hc Ha) as B1.
+  pose proof (mul_lt_bound _ (kW g) b _ B1 Hb) as B2. unfold nR. lia.
+Qed.
+
+Lemma src2d_closed g n r l : valid g -> 0 <= n < gN g -> 0 <= l < nL g -> src2d g (n, r, l) = (r, l * gN g + n).
+Proof.
+  intros Hv Hn Hl. unfold src2d.
+  replace (ravel3 (nL g) (gN g) r l n) with (ravel2 (nL g * gN g) r (l * gN g + n)) by (unfold ravel3, ravel2; ring).
+  apply unravel2_ravel. pose proof (mul_lt_bound l (gN g) n (nL g) Hl Hn). lia.
+Qed.
+
+Lemma phi2d_of_unf g n r l : valid g -> 0 <= n < gN g -> phi2d g (r, l * gN g + n) = phi g (n, r, l).
+Proof.
+  intros Hv Hn. unfold phi2d.
+  destruct (divmod_unique (l * gN g + n) (gN g) l n Hn eq_refl) as (-> & ->). reflexivity.
+Qed.
+
+(* in range, every contribution list is the scatter of phi: entry j is added once, at phi j *)
+Lemma in_P2 g i j : In (i, j) (P2 g) -> 0 <= i < lH g /\ 0 <= j < lW g.
+Proof. unfold P2. intros Hin. apply in_prod_iff in Hin. destruct Hin as (Hi & Hj). apply in_zr in Hi. apply in_zr in Hj. auto. Qed.
+Lemma in_P4 g n c a b : In (n, c, a, b) (P4 g) -> 0 <= n < gN g /\ 0 <= c < gC g /\ 0 <= a < kH g /\ 0 <= b < kW g.
+Proof.
+  unfold P4. intros Hin. apply in_prod_iff in Hin. destruct Hin as (Hin & Hb).
+  apply in_prod_iff in Hin. destruct Hin as (Hin & Ha). apply in_prod_iff in Hin. destruct Hin as (Hn & Hc).
+  apply in_zr in Hn. apply in_zr in Hc. apply in_zr in Ha. apply in_zr in Hb. auto.
+Qed.
+
+Lemma contribs_unf_sum v g (F : Z * Z * Z -> option pos -> A) : valid g ->
+  isum (col2im_unf v g) (fun jt => F (fst jt) (snd jt)) = isum (Junf g) (fun j => F j (phi_opt g j)).
+Proof.
+  intros Hv. destruct v; cbn [col2im_unf].
+  - now apply idx_sum.
+  - rewrite v2_sum by auto. rewrite (Junf_sum g (fun j => F j (phi_opt g j))) by auto.
+    apply isum_ext; intros [i j] Hij. apply in_P2 in Hij. destruct Hij as (Hi & Hj).
+    apply isum_ext; intros [[[n c] a] b] Hq. apply in_P4 in Hq. destruct Hq as (Hn & Hc & Ha & Hb).
+    unfold phi_opt, phi_win_opt. rewrite phi_of_win by (auto; lia). reflexivity.
+  - unfold fast_contribs_unf. rewrite isum_map. cbn [fst snd].
+    rewrite (pw_sum g (fun w t => F (fast_src_unf g w) t)) by auto.
+    rewrite (Junf_sum g (fun j => F j (phi_opt g j))) by auto.
+    apply isum_ext; intros [i j] Hij. apply in_P2 in Hij. destruct Hij as (Hi & Hj).
+    apply isum_ext; intros [[[n c] a] b] Hq. apply in_P4 in Hq. destruct Hq as (Hn & Hc & Ha & Hb).
+    rewrite fast_src_unf_closed by auto.
+    unfold phi_opt, phi_win_opt. rewrite phi_of_win by (auto; lia). reflexivity.
+Qed.
+
+Lemma in_Junf g n r l : In (n, r, l) (Junf g) -> 0 <= n < gN g /\ 0 <= r < nR g /\ 0 <= l < nL g.
+Proof.
+  unfold Junf. intros Hin. apply in_prod_iff in Hin. destruct Hin as (Hin & Hl).
+  apply in_prod_iff in Hin. destruct Hin as (Hn & Hr).
+  apply in_zr in Hn. apply in_zr in Hr. apply in_zr in Hl. auto.
+Qed.
+
+Lemma contribs_2d_sum v g (F : Z * Z -> option pos -> A) : valid g ->
+  isum (col2im_2d v g) (fun jt => F (fst jt) (snd jt)) =
+  isum (Junf g) (fun j => let '(n, r, l) := j in F (r, l * gN g + n) (phi_opt g j)).
+Proof.
+  intros Hv.
+  assert (Hmap : forall contribs,
+    isum contribs (fun jt => F (src2d g (fst jt)) (snd jt)) = isum (Junf g) (fun j => F (src2d g j) (phi_opt g j)) ->
+    isum (map (fun jt => (src2d g (fst jt), snd jt)) contribs) (fun jt => F (fst jt) (snd jt)) =
+    isum (Junf g) (fun j => let '(n, r, l) := j in F (r, l * gN g + n) (phi_opt g j))).
+  { intros contribs E. rewrite isum_map. cbn [fst snd]. rewrite E.
+    apply isum_ext; intros [[n r] l] Hin. apply in_Junf in Hin. destruct Hin as (Hn & Hr & Hl).
+    rewrite src2d_closed by auto. reflexivity. }
+  destruct v; cbn [col2im_2d].
+  - apply Hmap. apply (contribs_unf_sum VIdx g (fun j t => F (src2d g j) t) Hv).
+  - apply Hmap. apply (contribs_unf_sum VLoop g (fun j t => F (src2d g j) t) Hv).
+  - unfold fast_contribs_2d. rewrite isum_map. cbn [fst snd].
+    rewrite (pw_sum g (fun w t => F (fast_src_2d g w) t)) by auto.
+    rewrite (Junf_sum g (fun j => let '(n, r, l) := j in F (r, l * gN g + n) (phi_opt g j))) by auto.
+    apply isum_ext; intros [i j] Hij. apply in_P2 in Hij. destruct Hij as (Hi & Hj).
+    apply isum_ext; intros [[[n c] a] b] Hq. apply in_P4 in Hq. destruct Hq as (Hn & Hc & Ha & Hb).
+    rewrite fast_src_2d_closed by auto.
+    unfold phi_opt, phi_win_opt. rewrite phi_of_win by (auto; lia). reflexivity.
+Qed.
+End ContribSums.
+
+(* ------------------------------------------------------------------ index sets *)
+Lemma pos_eqb_spec (a b : pos) : pos_eqb a b = true <-> a = b.
+Proof.
+  destruct a as [[[n c] h] w], b as [[[n' c'] h'] w']. unfold pos_eqb.
+  rewrite !andb_true_iff, !Z.eqb_eq. split.
+  - intros (((-> & ->) & ->) & ->). reflexivity.
+  - intros E. inversion E. auto.
+Qed.
+
+Lemma NoDup_list_prod {X Y} (l : list X) (l' : list Y) : NoDup l -> NoDup l' -> NoDup (list_prod l l').
+Proof.
+  intros N1 N2. induction N1 as [|a l Hnotin N1 IH]; simpl. constructor.
+  apply NoDup_app'; auto.
+  - apply NoDup_map_inj; auto. intros x y E. now inversion E.
+  - intros [x y] Hin Hc. apply in_map_iff in Hin. destruct Hin as (y' & E & _). inversion E; subst.
+    apply in_prod_iff in Hc. destruct Hc. contradiction.
+Qed.
+
+Lemma NoDup_Ipos g : NoDup (Ipos g).
+Proof. unfold Ipos. repeat apply NoDup_list_prod; apply NoDup_zr. Qed.
+Lemma NoDup_Junf g : NoDup (Junf g).
+Proof. unfold Junf. repeat apply NoDup_list_prod; apply NoDup_zr. Qed.
+Lemma NoDup_J2d g : NoDup (J2d g).
+Proof. unfold J2d. repeat apply NoDup_list_prod; apply NoDup_zr. Qed.
+
+Lemma in_Ipos g n c h w : In (n, c, h, w) (Ipos g) <-> 0 <= n < gN g /\ 0 <= c < gC g /\ 0 <= h < gH g /\ 0 <= w < gW g.
+Proof. unfold Ipos. rewrite !in_prod_iff, !in_zr. tauto. Qed.
+Lemma in_J2d g r q : In (r, q) (J2d g) <-> 0 <= r < nR g /\ 0 <= q < gN g * nL g.
+Proof. unfold J2d. rewrite !in_prod_iff, !in_zr. tauto. Qed.
+
+(* what pad_lookup returns *)
+Lemma pad_lookup_At g q i : pad_lookup g q = At i -> In i (Ipos g).
+Proof.
+  destruct q as [[[n c] hp] wp]. unfold pad_lookup, is_real.
+  match goal with |- (if ?b then _ else _) = _ -> _ => destruct b eqn:G1; [|discriminate] end.
+  match goal with |- (if ?b then _ else _) = _ -> _ => destruct b eqn:G2; [|discriminate] end.
+  intros E. inversion E; subst. apply in_Ipos.
+  rewrite !andb_true_iff, !Z.leb_le, !Z.ltb_lt in G1, G2. lia.
+Qed.
+Lemma pad_lookup_cases g n c hp wp : 0 <= n < gN g -> 0 <= c < gC g -> 0 <= hp < Hp g -> 0 <= wp < Wp g ->
+  pad_lookup g (n, c, hp, wp) =
+  if is_real (gH g) (pH g) hp && is_real (gW g) (pW g) wp then At (n, c, hp - pH g, wp - pW g) else PadV.
+Proof. intros. unfold pad_lookup. guard_true. reflexivity. Qed.
+
+Lemma phi_opt_into g j i : phi_opt g j = Some i -> In i (Ipos g).
+Proof.
+  unfold phi_opt, phi. destruct (pad_lookup g (phi_pad g j)) eqn:E; try discriminate.
+  cbn [cell_opt]. intros E'. inversion E'; subst. eapply pad_lookup_At; eauto.
+Qed.
+Lemma phi2d_opt_into g j i : phi2d_opt g j = Some i -> In i (Ipos g).
+Proof. destruct j as [r q]. unfold phi2d_opt, phi2d. apply phi_opt_into. Qed.
+
+(* in range phi is total: a pixel or the pad value, never out of bounds, never unwritten *)
+Lemma phi_cases g n r l : valid g -> 0 <= n < gN g -> 0 <= r < nR g -> 0 <= l < nL g ->
+  phi g (n, r, l) =
+  let '(_, c, hp, wp) := phi_pad g (n, r, l) in
+  if is_real (gH g) (pH g) hp && is_real (gW g) (pW g) wp then At (n, c, hp - pH g, wp - pW g) else PadV.
+Proof.
+  intros Hv Hn Hr Hl. unfold phi, phi_pad.
+  destruct (phi_pad_range g r l Hv Hr Hl) as (Bh & Bw). pose proof (row_parts g r Hv Hr) as (Hc & _ & _).
+  now apply pad_lookup_cases.
+Qed.
+
+(* ------------------------------------------------------------------ main theorems *)
+Section Main.
+Context {A : Type} `{ScalarLaws A}.
+
+(* im2col(x) of any variant is the gather of phi (pad value pv at the None positions) *)
+Lemma im2col_apply_unf v g pv (x : pos -> A) n r l : valid g -> 0 <= n < gN g -> 0 <= r < nR g -> 0 <= l < nL g ->
+  im2col_apply (im2col_unf v g) pv x (n, r, l) = match phi_opt g (n, r, l) with Some p => x p | None => pv end.
+Proof.
+  intros Hv Hn Hr Hl. unfold im2col_apply. rewrite im2col_unf_closed by auto.
+  unfold phi_opt. rewrite phi_cases by auto. unfold phi_pad.
+  destruct (_ && _); reflexivity.
+Qed.
+Lemma im2col_apply_2d v g pv (x : pos -> A) r q : valid g -> 0 <= r < nR g -> 0 <= q < gN g * nL g ->
+  im2col_apply (im2col_2d v g) pv x (r, q) = match phi2d_opt g (r, q) with Some p => x p | None => pv end.
+Proof.
+  intros Hv Hr Hq. destruct (q_parts g q Hv Hq) as (Hn & Hl).
+  unfold im2col_apply. rewrite im2col_2d_closed by auto.
+  unfold phi2d_opt, phi2d. rewrite phi_cases by auto. unfold phi_pad.
+  destruct (_ && _); reflexivity.
+Qed.
+
+(* col2im(y) of any variant is the scatter of phi *)
+Lemma col2im_unf_scatter v g (y : Z * Z * Z -> A) i : valid g ->
+  col2im_apply (col2im_unf v g) y i = scatter pos (Z * Z * Z) pos_eqb (Junf g) (phi_opt g) y i.
+Proof.
+  intros Hv. unfold col2im_apply, scatter.
+  apply (contribs_unf_sum v g (fun j t => match t with Some i' => if pos_eqb i' i then y j else s0 | None => s0 end) Hv).
+Qed.
+Lemma col2im_2d_scatter v g (y : Z * Z -> A) i : valid g ->
+  col2im_apply (col2im_2d v g) y i = scatter pos (Z * Z) pos_eqb (J2d g) (phi2d_opt g) y i.
+Proof.
+  intros Hv. unfold col2im_apply, scatter.
+  rewrite (contribs_2d_sum v g (fun j t => match t with Some i' => if pos_eqb i' i then y j else s0 | None => s0 end) Hv).
+  rewrite J2d_sum by auto.
+  apply isum_ext; intros [[n r] l] Hin. apply in_Junf in Hin. destruct Hin as (Hn & Hr & Hl).
+  unfold phi2d_opt. rewrite phi2d_of_unf by auto. reflexivity.
+Qed.
+
+(* place_windows agrees with col2im on windows[wi,wj,n,c,a,b] = y[n, (c*kH+a)*kW+b, wi*lW+wj] *)
+Definition jwin g (w : Z * Z * Z * Z * Z * Z) : Z * Z * Z :=
+  let '(wi, wj, n, c, a, b) := w in (n, (c * kH g + a) * kW g + b, wi * lW g + wj).
+Lemma place_windows_scatter g (y : Z * Z * Z -> A) i : valid g ->
+  col2im_apply (pw_contribs g) (fun w => y (jwin g w)) i = scatter pos (Z * Z * Z) pos_eqb (Junf g) (phi_opt g) y i.
+Proof.
+  intros Hv. unfold col2im_apply, scatter.
+  rewrite (pw_sum g (fun w t => match t with Some i' => if pos_eqb i' i then y (jwin g w) else s0 | None => s0 end) Hv).
+  rewrite Junf_sum by auto.
+  apply isum_ext; intros [wi wj] Hij. apply in_P2 in Hij. destruct Hij as (Hi & Hj).
+  apply isum_ext; intros [[[n c] a] b] Hq. apply in_P4 in Hq. destruct Hq as (Hn & Hc & Ha & Hb).
+  unfold phi_opt, phi_win_opt. rewrite phi_of_win by (auto; lia). reflexivity.
+Qed.
+
+(* <im2col x, y> = <x, col2im y> *)
+Lemma adjoint_unf v v' g (x : pos -> A) (y : Z * Z * Z -> A) : valid g ->
+  dot (Junf g) y (im2col_apply (im2col_unf v g) s0 x) = dot (Ipos g) (col2im_apply (col2im_unf v' g) y) x.
+Proof.
+  intros Hv.
+  transitivity (dot (Junf g) y (gather pos (Z * Z * Z) (phi_opt g) x)).
+  { unfold dot. apply isum_ext; intros [[n r] l] Hin. apply in_Junf in Hin. destruct Hin as (Hn & Hr & Hl).
+    rewrite im2col_apply_unf by auto. reflexivity. }
+  rewrite (gather_scatter_adjoint pos (Z * Z * Z) pos_eqb pos_eqb_spec (Ipos g) (Junf g) (NoDup_Ipos g)).
+  - unfold dot. apply isum_ext; intros i _. now rewrite col2im_unf_scatter.
+  - intros j i _ E. eapply phi_opt_into; eauto.
+Qed.
+Lemma adjoint_2d v v' g (x : pos -> A) (y : Z * Z -> A) : valid g ->
+  dot (J2d g) y (im2col_apply (im2col_2d v g) s0 x) = dot (Ipos g) (col2im_apply (col2im_2d v' g) y) x.
+Proof.
+  intros Hv.
+  transitivity (dot (J2d g) y (gather pos (Z * Z) (phi2d_opt g) x)).
+  { unfold dot. apply isum_ext; intros [r q] Hin. apply in_J2d in Hin. destruct Hin as (Hr & Hq).
+    rewrite im2col_apply_2d by auto. reflexivity. }
+  rewrite (gather_scatter_adjoint pos (Z * Z) pos_eqb pos_eqb_spec (Ipos g) (J2d g) (NoDup_Ipos g)).
+  - unfold dot. apply isum_ext; intros i _. now rewrite col2im_2d_scatter.
+  - intros j i _ E. eapply phi2d_opt_into; eauto.
+Qed.
+
+(* fold(unfold x) i = x i * #{(window, kernel offset) reading i} *)
+Lemma isum_indicator_const {I} (l : list I) (P : I -> bool) (c : A) :
+  isum l (fun j => if P j then c else s0) = nsmul (length (filter P l)) c.
+Proof.
+  induction l as [|a l IH]; simpl. reflexivity.
+  unfold isum in *. simpl. rewrite IH. destruct (P a); simpl. reflexivity. apply sadd_0_l.
+Qed.
+
+Lemma fold_unfold_unf v v' g (x : pos -> A) i : valid g ->
+  col2im_apply (col2im_unf v' g) (im2col_apply (im2col_unf v g) s0 x) i = nsmul (cover g i) (x i).
+Proof.
+  intros Hv. rewrite col2im_unf_scatter by auto. unfold scatter, cover.
+  rewrite <- isum_indicator_const.
+  apply isum_ext; intros [[n r] l] Hin. apply in_Junf in Hin. destruct Hin as (Hn & Hr & Hl).
+  rewrite im2col_apply_unf by auto. unfold phi_opt.
+  destruct (phi g (n, r, l)) as [p| | |]; cbn [cell_opt cell_is]; auto.
+  destruct (pos_eqb p i) eqn:E; auto. apply pos_eqb_spec in E. now subst.
+Qed.
+Lemma fold_unfold_2d v v' g (x : pos -> A) i : valid g ->
+  col2im_apply (col2im_2d v' g) (im2col_apply (im2col_2d v g) s0 x) i = nsmul (cover g i) (x i).
+Proof.
+  intros Hv. rewrite col2im_2d_scatter by auto. unfold scatter, cover.
+  rewrite <- isum_indicator_const. rewrite J2d_sum by auto.
+  apply isum_ext; intros [[n r] l] Hin. apply in_Junf in Hin. destruct Hin as (Hn & Hr & Hl).
+  assert (Hq : 0 <= l * gN g + n < gN g * nL g) by (pose proof (mul_lt_bound l (gN g) n (nL g) Hl Hn); lia).
+  rewrite im2col_apply_2d by auto. unfold phi2d_opt. rewrite phi2d_of_unf by auto.
+  destruct (phi g (n, r, l)) as [p| | |]; cbn [cell_opt cell_is]; auto.
+  destruct (pos_eqb p i) eqn:E; auto. apply pos_eqb_spec in E. now subst.
+Qed.
+End Main.
+
+(* every argument entry is added exactly once, into the pixel phi names (what one-hot probing reads) *)
+Definition j3_eqb (a b : Z * Z * Z) : bool :=
+  let '(n, r, l) := a in let '(n', r', l') := b in (n =? n') && (r =? r') && (l =? l').
+Lemma j3_eqb_spec a b : j3_eqb a b = true <-> a = b.
+Proof.
+  destruct a as [[n r] l], b as [[n' r'] l']. unfold j3_eqb. rewrite !andb_true_iff, !Z.eqb_eq. split.
+  - intros ((-> & ->) & ->). reflexivity.
+  - intros E. inversion E. auto.
+Qed.
+Lemma col2im_one_hot v g j0 i : valid g -> In j0 (Junf g) ->
+  col2im_apply (col2im_unf v g) (fun j => if j3_eqb j0 j then 1 else 0) i =
+  match phi_opt g j0 with Some i' => if pos_eqb i' i then 1 else 0 | None => 0 end.
+Proof.
+  intros Hv Hin. rewrite col2im_unf_scatter by auto. unfold scatter.
+  rewrite <- (isum_pick j3_eqb j3_eqb_spec (Junf g) j0
+               (fun j => match phi_opt g j with Some i' => if pos_eqb i' i then 1 else 0 | None => 0 end)
+               (NoDup_Junf g) Hin).
+  apply isum_ext; intros j _. change s0 with 0.
+  destruct (phi_opt g j) as [i'|]; destruct (j3_eqb j0 j); auto. destruct (pos_eqb i' i); auto.
+Qed.
+
+(* the pad value appears exactly where the padded coordinates of phi_pad leave the image rectangle *)
+Lemma pad_exact v g n r l : valid g -> 0 <= n < gN g -> 0 <= r < nR g -> 0 <= l < nL g ->
+  let '(_, c, hp, wp) := phi_pad g (n, r, l) in
+  (im2col_unf v g (n, r, l) = PadV <-> ~ (pH g <= hp < pH g + gH g /\ pW g <= wp < pW g + gW g)) /\
+  (im2col_unf v g (n, r, l) <> PadV -> im2col_unf v g (n, r, l) = At (n, c, hp - pH g, wp - pW g)).
+Proof.
+  intros Hv Hn Hr Hl. rewrite im2col_unf_closed by auto. rewrite phi_cases by auto. unfold phi_pad, is_real.
+  set (hp := (r / kW g) mod kH g * dH g + sH g * (l / lW g)). set (wp := r mod kW g * dW g + sW g * (l mod lW g)).
+  destruct (Z.leb_spec (pH g) hp), (Z.ltb_spec hp (pH g + gH g)), (Z.leb_spec (pW g) wp), (Z.ltb_spec wp (pW g + gW g));
+    cbn [andb]; split; try (split; [discriminate || (intros; lia) | intros; try congruence; lia]); try (intros; congruence).
+Qed.
+
+(* the fibre of a pooling window always has kH*kW entries (padding included) *)
+Lemma fibre2_length g wi wj n c : valid g -> zlen (fibre2 g wi wj n c) = kH g * kW g.
+Proof. intros Hv. pose proof (nK_pos g Hv). unfold fibre2. rewrite zlen_map, zlen_zr; lia. Qed.
+Lemma fibre2_nth g wi wj n c t : valid g ->
+  0 <= wi < lH g -> 0 <= wj < lW g -> 0 <= n < gN g -> 0 <= c < gC g -> 0 <= t < kH g * kW g ->
+  znth_error (fibre2 g wi wj n c) t = Some (phi_win g (wi, wj, n, c, t / kW g, t mod kW g)).
+Proof.
+  intros Hv Hwi Hwj Hn Hc Ht. unfold fibre2. rewrite znth_error_map, znth_error_zr by auto. cbn [option_map].
+  assert (HkWp : 0 < kW g) by (dv Hv; lia).
+  rewrite ew_closed; auto. apply div_bound; auto. apply mod_bound; auto.
+Qed.
